@@ -246,20 +246,25 @@ fn job(ctx: &Ctx, job: usize, iters: u64) -> Stats {
     st
 }
 
+fn pow2(k: u32) -> u128 {
+    if k >= 128 { 0 } else { 1u128 << k }
+}
+
 /// Tables with MANY columns (60..130 free variables, linear diagrams): too wide for truth tables, so
 /// every printed row is judged by three-valued evaluation of the formula under the row's partial
 /// assignment (definitely the printed value), rows are compared pairwise for disjointness, and the
-/// number of covered assignments (sum of 2^#Any, exact in u128) is compared with the known count.
+/// number of covered assignments (sum of 2^#Any, modulo 2^128) is compared with the known count.
 fn wide_case(ctx: &Ctx, st: &mut Stats, n: usize, shape: &str, filter: Option<&str>, channel: u8, with_v: bool) {
     use crate::cli::Cell;
     let names: Vec<String> = (0..n).map(|i| format!("x{:03}", i)).collect();
     let (text, true_count): (String, u128) = match shape {
-        "or" => (names.join(" | "), (1u128 << n) - 1),
+        "or" => (names.join(" | "), pow2(n as u32).wrapping_sub(1)),
         "and" => (names.join(" & "), 1),
         // x0 => (x1 => (... => x_last)) : false only when all but the last are true and the last is false
-        _ => (names.join(" => "), (1u128 << n) - 1),
+        _ => (names.join(" => "), pow2(n as u32).wrapping_sub(1)),
     };
-    let total: u128 = 1u128 << n;
+    // (all counts are kept modulo 2^128: equal counts stay equal, and tables have up to 129 columns)
+    let total: u128 = pow2(n as u32);
     let inv = Inv { text: text.clone(), channel, filter: filter.map(|s| s.to_string()), t: true, v: with_v, ..Default::default() };
     st.evals += 1;
     st.bump("wide_tables");
@@ -312,7 +317,7 @@ fn wide_case(ctx: &Ctx, st: &mut Stats, n: usize, shape: &str, filter: Option<&s
             st.violate("c10.table", "C10:table:filter".into(), format!("{}: row {} contradicts the filter", desc, k + 1), case());
             return;
         }
-        covered += 1u128 << anys;
+        covered = covered.wrapping_add(pow2(anys));
         for (cells2, _) in table.rows.iter().take(k) {
             let disjoint = cells.iter().zip(cells2.iter()).any(|(a, b)| (*a == Cell::True && *b == Cell::False) || (*a == Cell::False && *b == Cell::True));
             if !disjoint {
@@ -323,7 +328,7 @@ fn wide_case(ctx: &Ctx, st: &mut Stats, n: usize, shape: &str, filter: Option<&s
     }
     let want = match fk {
         "true" => true_count,
-        "false" => total - true_count,
+        "false" => total.wrapping_sub(true_count),
         _ => total,
     };
     if covered != want {
@@ -331,7 +336,7 @@ fn wide_case(ctx: &Ctx, st: &mut Stats, n: usize, shape: &str, filter: Option<&s
         return;
     }
     if with_v {
-        let sat_lines: u128 = parsed.vlines.iter().map(|items| 1u128 << items.iter().filter(|x| x.1).count()).sum();
+        let sat_lines: u128 = parsed.vlines.iter().fold(0u128, |acc, items| acc.wrapping_add(pow2(items.iter().filter(|x| x.1).count() as u32)));
         if sat_lines != true_count {
             st.violate("c10.vlines", "C10:-v:coverage".into(), format!("{}: the -v lines cover {} assignments, the formula has {} satisfying ones", desc, sat_lines, true_count), case());
             return;
